@@ -224,12 +224,21 @@ Fixpoint emit (fnfail : nat) (listed : list N) (names : list N) : list N * bool 
            else emit fnfail listed' r
   end.
 
+(* The order in which the inner backend lists its files is NOT stable: each attempt sees its own order
+   (mem backend map iteration, object stores).  The mock derives the order of an attempt from the number
+   of script directives left after this call's own directive: rotate by it, and reverse when it is odd —
+   so consecutive attempts of one List see different orders, and padding the script changes them. *)
+Definition lorder (j : nat) (l : list N) : list N :=
+  let n := Nat.modulo j (length l) in
+  let r := skipn n l ++ firstn n l in
+  if Nat.odd j then rev r else r.
+
 Definition WLi := (W * list N)%type.
 Definition att_list (fnfail : nat) (wl : WLi) : WLi * aout :=
   let '((s, tr), listed) := wl in
   let '(f, sc) := pop (s_script s) in
   let s' := with_store s (s_store s) sc in
-  let ks := keys (s_store s) in
+  let ks := lorder (length sc) (keys (s_store s)) in
   let '(toemit, e) := match f with
                       | FNone => (ks, None)
                       | FBefore e => ([], Some e)
